@@ -119,6 +119,34 @@ func (h *counterHistory) findCounterFor(ourKeyID, theirKeyID uint32) *keyPairCou
 	return c
 }
 
+// forgetCountersForOurKey drops the counters of every pair that uses our retired key
+func (h *counterHistory) forgetCountersForOurKey(ourKeyID uint32) {
+	kept := h.counters[:0]
+	for _, c := range h.counters {
+		if c.ourKeyID != ourKeyID {
+			kept = append(kept, c)
+		}
+	}
+	for i := len(kept); i < len(h.counters); i++ {
+		h.counters[i] = nil
+	}
+	h.counters = kept
+}
+
+// forgetCountersForTheirKey drops the counters of every pair that uses their retired key
+func (h *counterHistory) forgetCountersForTheirKey(theirKeyID uint32) {
+	kept := h.counters[:0]
+	for _, c := range h.counters {
+		if c.theirKeyID != theirKeyID {
+			kept = append(kept, c)
+		}
+	}
+	for i := len(kept); i < len(h.counters); i++ {
+		h.counters[i] = nil
+	}
+	h.counters = kept
+}
+
 type keyManagementContext struct {
 	ourKeyID, theirKeyID                        uint32
 	ourCurrentDHKeys, ourPreviousDHKeys         dhKeyPair
@@ -188,6 +216,8 @@ func (k *keyManagementContext) generateNewDHKeyPair(randomness io.Reader) error 
 		pub:  modExpPCT(g1ct, newPrivKey).GetBigInt(),
 	}
 	k.ourKeyID++
+	// the key before the previous one is gone: no message for it is acceptable any more
+	k.counterHistory.forgetCountersForOurKey(k.ourKeyID - 2)
 	return nil
 }
 
@@ -216,6 +246,7 @@ func (k *keyManagementContext) rotateOurKeys(recipientKeyID uint32, randomness i
 func (k *keyManagementContext) revealMACKeysForTheirPreviousKeyID() {
 	keys := k.macKeyHistory.forgetMACKeysForTheirKey(k.theirKeyID - 1)
 	k.oldMACKeys = append(k.oldMACKeys, keys...)
+	k.counterHistory.forgetCountersForTheirKey(k.theirKeyID - 1)
 }
 
 func (k *keyManagementContext) rotateTheirKey(senderKeyID uint32, pubDHKey *big.Int) {
